@@ -765,8 +765,9 @@ pub fn run(ctx: &Ctx) -> i32 {
     // second stratum: short signature-free histories over many more keys (provenance properties only)
     let n_short: u64 = if matches!(prop, "C09" | "C11" | "C13") {
         match ctx.tier {
-            Tier::Quick => ctx.scaled(15_000),
-            Tier::Thorough => ctx.scaled(300_000),
+            // C11: defects confined to ~1 key in 10^4 (a coefficient of t landing exactly on q) need volume
+            Tier::Quick => ctx.scaled(if prop == "C11" { 45_000 } else { 15_000 }),
+            Tier::Thorough => ctx.scaled(if prop == "C11" { 600_000 } else { 300_000 }),
         }
     } else {
         0
